@@ -5,9 +5,10 @@ import vlib
 
 STAGES = ["core", "mono", "lift", "anf", "go"]
 
-def run_sem(ctx, lines):
+def run_sem(ctx, lines, cap=0):
     p = subprocess.run(["bash", "-c", f"ulimit -s unlimited; exec {vlib.MODEL} sem"], input="\n".join(lines) + "\n",
-                       stdout=subprocess.PIPE, stderr=subprocess.PIPE, text=True, timeout=3000)
+                       stdout=subprocess.PIPE, stderr=subprocess.PIPE, text=True, timeout=3000,
+                       env=dict(os.environ, GV_CAP=str(cap)))
     res = {}
     for l in p.stdout.split("\n"):
         f = l.split("\t")
@@ -59,8 +60,13 @@ def evaluate(ctx, progs):
         for st, sx in d["stages"].items():
             lines.append(f"{pid}|{st}\t{sx}")
     res = run_sem(ctx, lines) if lines else {}
+    # where the Go specification leaves the capacity of a grown slice open, Go.Sem takes it as a
+    # parameter: programs that append are run again under a generous growth policy
+    lines2 = [f"{pid}|go\t{d['stages']['go']}" for pid, d in progs.items() if "go" in d["stages"] and "append" in d["stages"]["go"]]
+    res2 = run_sem(ctx, lines2, cap=2) if lines2 else {}
     for pid, d in progs.items():
         d["out"] = {st: res.get(f"{pid}|{st}") for st in d["stages"]}
+        d["go_cap2"] = res2.get(f"{pid}|go")
     return progs
 
 # corpus programs whose recorded .out is not a run of the program (Go's own error text etc.)
@@ -128,6 +134,11 @@ def run(ctx):
                 kind = "stage-output-not-executable:" + o[div][0][:60]
             ctx.report({"oracle": "stagewise", "first_divergent_stage": div, "kind": kind},
                        f"the {div} stage no longer behaves like the {ref_stage} stage", payload)
+        g2 = d.get("go_cap2")
+        if g2 is not None and (g2[0], g2[1]) != (o["go"][0], o["go"][1]):
+            ctx.report({"oracle": "go-unspecified-behaviour", "kind": "append-shares-backing-array"},
+                       "the emitted Go behaves differently depending on the capacity a grown slice gets (two vec_push on one vector share a backing array)",
+                       dict(payload, go_tight_capacity=vlib.unesc(o["go"][1])[:300], go_generous_capacity=vlib.unesc(g2[1])[:300]))
         # recorded outputs come from real Go: they validate Go.Sem itself and the whole pipeline
         exp = d.get("expect")
         # a recording that is not a run of the program's intended behaviour: the Go compiler's own
